@@ -18,10 +18,12 @@ mod shapes;
 
 mod e_c01;
 mod e_c05;
+mod e_c20;
 mod e_decode;
 mod e_emit;
 mod e_c06;
 mod e_c07;
+mod e_c08;
 mod e_c09;
 mod e_c10;
 mod e_c11;
@@ -86,9 +88,11 @@ fn main() {
         "c02" => e_emit::run(&ctx, false),
         "c04" => e_emit::run(&ctx, true),
         "c05" => e_c05::run(&ctx),
+        "c20" => e_c20::run(&ctx),
         "decode" => e_decode::run(&ctx),
         "c06" => e_c06::run(&ctx),
         "c07worker" => e_c07::worker(&ctx),
+        "c08" => e_c08::run(&ctx),
         "c09" => e_c09::run(&ctx),
         "c10" => e_c10::run(&ctx),
         "c11" => e_c11::run(&ctx),
